@@ -79,3 +79,28 @@ prop("C03", level="proof", bounded=True,
      also=["Fiber._coord2pos", "Fiber._create_payload", "Fiber.getPayload", "Fiber.getPayloadRef", "Fiber.getPosition", "Fiber.getPositionRef",
            "Fiber.setSavedPos", "Payload.__ilshift__", "Payload.__iadd__", "Payload.__imul__"],
      trusted_base=["bisect.bisect_left", "Fiber._createDefault / getDefault leaf-rank contracts (tier B)"])
+
+prop("C04", level="proof", bounded=True,
+     technique="deductive: loop invariants of the real merge loops against set-membership specs (pyvc, z3/cvc5); bounded pairs as cross-check",
+     text="The merge loops of a & b, a | b, a ^ b, a - b (equal-arity path, integer coordinates, leaf ranks, collection off) are proved against the "
+          "truth tables stated by membership, not by a merge recursion: strictly ascending output, every output coordinate is in the right operands with "
+          "the operands' own payload objects (identity), a fresh default box for the absent side, mask naming exactly the sides present, and completeness "
+          "(every coordinate of the set operation is yielded) -- for all operand sequences, all interleavings, all three tail loops; operands unmodified "
+          "(frame). iterRange (what a fiber presents: in-range, non-empty, own payload objects, ascending; valid start_pos irrelevant) is proved likewise. "
+          "Bounded only: tuple coordinates and mixed arity, n-ary unrolling and leader-follower, uncompressed ranks, interior ranks (default sub-fiber synthesis).",
+     note="Trusted: pyvc, z3/cvc5; the sequence a fiber's iterator yields is taken strictly ascending (iterRange proves it for the compressed format; the "
+          "format dispatch of __iter__ is tier B); _createDefault leaf contract (tier B). Known finding: a - b with an uncompressed a.",
+     also=["iterRange", "Payload.isEmpty"],
+     trusted_base=["__iter__ format dispatch (tier B)", "Fiber._createDefault leaf contract (tier B)", "Fiber.isEmpty ghost abstraction (tier B)"])
+
+prop("C07", level="proof", bounded=True,
+     technique="deductive: iterRange loop invariant against the filter spec, search contracts (pyvc, z3/cvc5); bounded enumeration of every traversal mode",
+     text="iterRange is proved to yield exactly the stored, non-empty, in-range elements with their own payload objects in ascending order, to leave the "
+          "tree unchanged (frame: saved-position bookkeeping only), and to yield the same sequence from every valid start_pos, with the saved position "
+          "addressing the last element yielded; _coord2pos/getPayload(Ref) carry the shape/Ref variants' per-coordinate behaviour (C03). "
+          "Bounded only: the wrappers (iterShape/Active/...), format dispatch, step arithmetic of iterRangeShape(Ref), lazy fibers (repeatable, "
+          "materialise to equal eager fibers), projection (incl. reversal and intervals) and pruning: exhaustive over all fibers on 3 (quick) / 4 "
+          "(thorough) coordinates, all ranges, steps, active ranges, start positions, both formats, affine transforms +-c+k, intervals.",
+     note="Trusted: pyvc, z3/cvc5, tier-B contracts of getDefault/isEmpty (ghost default / emptiness).",
+     also=["iterRange", "Fiber._coord2pos", "Fiber.getPayload", "Fiber.getPayloadRef", "Fiber.setSavedPos", "Payload.isEmpty"],
+     trusted_base=["Fiber.getDefault / Fiber.isEmpty ghost abstractions (tier B)"])
